@@ -109,4 +109,76 @@ def transDistSq (guarded : Bool) (mat : List (List α)) (sign line : List α) : 
   | some m => some (m.map (distSq line))
 
 end dist
+section geo
+variable {α : Type} [Add α] [Sub α] [Mul α] [Div α] [OfNat α 0] [OfNat α 1] [LT α] [DecidableLT α]
+  [BEq α]
+
+/-! ### geometric definition of the distance transformation (Spec oracle)
+
+Written independently of `scaleCols` / `distSq`: row by row, no transposition, the scaled value is
+`(x - lo) / (hi - lo)` with `lo`, `hi` the minimum / maximum of the point's objective over the whole
+front (`0` for a constant objective), the distance is the norm of `q - ((q·L)/(L·L)) L`.
+`Props/C19.dist_eq_geometric_def` proves it equal to the transcription of the code. -/
+
+/-- objective `j` of all points (`P[:, j]`) -/
+def colOf (P : List (List α)) (j : Nat) : List α := P.filterMap (fun r => r[j]?)
+
+/-- min–max scaled value of `x` within its objective column -/
+def geoScaleEntry (col : List α) (x : α) : α :=
+  let lo := colMin col
+  let hi := colMax col
+  if hi == lo then 0 else (x - lo) / (hi - lo)
+
+/-- one point of the front scaled to the unit cube -/
+def geoScaleRow (P : List (List α)) (row : List α) : List α :=
+  row.zipIdx.map (fun xj => geoScaleEntry (colOf P xj.2) xj.1)
+
+/-- squared norm of `q - ((q·L)/(L·L)) L` -/
+def geoDistSq (line q : List α) : α :=
+  let t := Np.dot q line / Np.dot line line
+  Np.sum (List.zipWith (fun a b => (a - t * b) * (a - t * b)) q line)
+
+/-- squared distances of all points of the signed front to the preference line -/
+def geoDist (mat : List (List α)) (sign line : List α) : List α :=
+  let P := mat.map (fun r => List.zipWith (· * ·) r sign)
+  P.map (fun r => geoDistSq line (geoScaleRow P r))
+
+def absv (x : α) : α := if x < 0 then 0 - x else x
+
+/-- the harness' tolerance rule (`canon.close`): equal, or `|a-b| ≤ abs_`, or `|a-b| ≤ rel·max(|a|,|b|)` -/
+def closeTol (rel abs_ a b : α) : Bool :=
+  a == b ||
+    (let d := absv (a - b)
+     let m := if absv a < absv b then absv b else absv a
+     !(decide (abs_ < d)) || !(decide (rel * m < d)))
+
+/-- Spec of the third sentence of C19 on claimed squared distances `d2` (`none` = NaN / inf):
+    every distance finite, one per point, each equal (within tolerance) to the geometric definition -/
+def specDist (rel abs_ : α) (mat : List (List α)) (sign line : List α) (d2 : List (Option α)) : Bool :=
+  let want := geoDist mat sign line
+  d2.all Option.isSome && d2.length == want.length &&
+    (List.zip d2 want).all (fun p => match p.1 with
+      | some x => closeTol rel abs_ x p.2
+      | none => false)
+
+end geo
+
+/-! ### the instances the driver executes: the definitions above at core `Rat`
+
+`Drv/C19.lean` calls these constants; `Props/C19.lean` (section `Q`) shows that the theorems proved
+over an arbitrary ordered field apply to them. -/
+namespace Q
+def applyWt (wt row : List Rat) : List Rat := Pareto.applyWt wt row
+def weakDom (r p : List Rat) : Bool := Pareto.weakDom r p
+def strictDom (a b : List Rat) : Bool := Pareto.strictDom a b
+def efficientIdx (fmat : List (List Rat)) (wt : List Rat) : List Nat := Pareto.efficientIdx fmat wt
+def efficientMask (fmat : List (List Rat)) (wt : List Rat) : List Bool := Pareto.efficientMask fmat wt
+def dominates (o1 : List Rat) (c1 : Rat) (o2 : List Rat) (c2 : Rat) : Bool := Pareto.dominates o1 c1 o2 c2
+def transDistSq (guarded : Bool) (mat : List (List Rat)) (sign line : List Rat) : Option (List Rat) :=
+  Pareto.transDistSq guarded mat sign line
+def geoDist (mat : List (List Rat)) (sign line : List Rat) : List Rat := Pareto.geoDist mat sign line
+def specDist (rel abs_ : Rat) (mat : List (List Rat)) (sign line : List Rat) (d2 : List (Option Rat)) : Bool :=
+  Pareto.specDist rel abs_ mat sign line d2
+end Q
+
 end Pareto
